@@ -105,7 +105,7 @@ package corazawaf
 //@   modifies nothing
 //@   ensures result == tx.debugLogger
 
-//@ func (*RuleGroup).Eval props C02,C08
+//@ func (*RuleGroup).Eval props C02,C08,C17
 //@   requires tx != nil
 //@   modifies inferred, tx.evalCount
 //@   ensures def_counts: tx.evalCount == put(old(tx.evalCount), phase, get(old(tx.evalCount), phase) + 1)
@@ -116,6 +116,21 @@ package corazawaf
 //@   ensures result == (tx.interruption != nil)
 //@   loop 2
 //@     invariant tx.lastPhase == phase
+// the phase loop is left early only for the documented reasons (C08): interruption outside the logging phase,
+// allow:phase, bare allow, allow:request in a request phase
+//@     exits early: (tx.interruption != nil && phase != types.PhaseLogging) || tx.AllowType == corazatypes.AllowTypePhase ||
+//@         tx.AllowType == corazatypes.AllowTypeAll || (tx.AllowType == corazatypes.AllowTypeRequest && phase == types.PhaseRequestHeaders) ||
+//@         (tx.AllowType == corazatypes.AllowTypeRequest && phase == types.PhaseRequestBody)
+// a rule removed for this transaction (ctl:ruleRemoveById, id or range) behaves like a rule that is not in the
+// configuration: it neither consumes a pending skip nor is it looked at for a pending skipAfter marker (C17)
+//@   at "tx.Skip--" requires removedRulesDoNotCount: !has(tx.ruleRemoveByID, r.ID_) &&
+//@       (forall j int :: 0 <= j && j < len(tx.ruleRemoveByIDRanges) ==> !(r.ID_ >= tx.ruleRemoveByIDRanges[j][0] && r.ID_ <= tx.ruleRemoveByIDRanges[j][1]))
+//@   at "tx.AllowType = corazatypes.AllowTypeUnset" requires onlyDocumentedResets: tx.AllowType == corazatypes.AllowTypePhase ||
+//@       (tx.AllowType == corazatypes.AllowTypeRequest && phase == types.PhaseRequestBody)
+//@   loop 3
+//@     invariant -1 <= rangeindex && tx.lastPhase == phase
+//@     invariant !has(tx.ruleRemoveByID, r.ID_)
+//@     invariant forall j int :: 0 <= j && j <= rangeindex ==> !(r.ID_ >= tx.ruleRemoveByIDRanges[j][0] && r.ID_ <= tx.ruleRemoveByIDRanges[j][1])
 
 //@ func (*Transaction).ProcessRequestHeaders props C02
 //@   requires tx.WAF != nil && PhaseInv(tx)
@@ -274,3 +289,44 @@ package corazawaf
 //@       reqContent(tx) == old(reqContent(tx)) + old(str(b))[0:old(tx.RequestBodyLimit) - old(tx.requestBodyBuffer.length)]
 //@   ensures full: old(tx.RuleEngine) != types.RuleEngineOff && old(tx.RequestBodyAccess) &&
 //@       old(tx.requestBodyBuffer.length) == old(tx.RequestBodyLimit) ==> result1 == 0 && reqContent(tx) == old(reqContent(tx))
+
+// ---------------------------------------------------------------- transformation chains (C14 multiMatch, C01, C12)
+
+// A transformation is a pure, deterministic function of its input (C14): its three results are functions of
+// (function value, input).
+//@ spec tfOut(f ref, input string) string
+//@ spec tfChanged(f ref, input string) bool
+//@ spec tfFails(f ref, input string) bool
+//@ func funcfield:ruleTransformationParams.Function trusted
+//@   ensures result0 == tfOut(fn, input) && result1 == tfChanged(fn, input) && (isnil(result2) <==> !tfFails(fn, input))
+
+// multiMatch (C14): the collected values start with the original value; a step that succeeds and reports a change
+// appends its output and continues from it, any other step changes neither the list nor the running value.
+//@ func (*Rule).executeTransformationsMultimatch props C14,C01
+//@   ensures len(result0) >= 1 && result0[0] == value
+//@   loop 1
+//@     invariant len(res) >= 1 && res[0] == old(value)
+//@     step advance: isnil(err) && changed ==> value == transformedValue && len(res) == len(prev(res)) + 1 && res[len(res) - 1] == transformedValue
+//@     step keep: !(isnil(err) && changed) ==> value == prev(value) && len(res) == len(prev(res))
+//@     step fromRunning: transformedValue == tfOut(t.Function, prev(value)) && changed == tfChanged(t.Function, prev(value))
+
+// executeTransformations (C01): every step that succeeds replaces the running value by its output; a failing step
+// leaves it.
+//@ func (*Rule).executeTransformations props C01,C14
+//@   loop 1
+//@     step advance: isnil(err) ==> value == v
+//@     step keep: !isnil(err) ==> value == prev(value)
+//@     step fromRunning: v == tfOut(t.Function, prev(value))
+
+// ---------------------------------------------------------------- run-time rule removal (C17)
+
+// ctl:ruleRemoveById=A-B adds exactly the range [A,B] to the transaction's removal list and keeps every earlier one.
+//@ func (*Transaction).RemoveRuleByIDRange props C17,C07
+//@   modifies tx.ruleRemoveByIDRanges, elems(tx.ruleRemoveByIDRanges)
+//@   ensures len(tx.ruleRemoveByIDRanges) == len(old(tx.ruleRemoveByIDRanges)) + 1
+//@   ensures last: tx.ruleRemoveByIDRanges[len(tx.ruleRemoveByIDRanges) - 1][0] == start && tx.ruleRemoveByIDRanges[len(tx.ruleRemoveByIDRanges) - 1][1] == end
+//@   ensures earlierKept: forall j int :: 0 <= j && j < len(old(tx.ruleRemoveByIDRanges)) ==> tx.ruleRemoveByIDRanges[j] == old(tx.ruleRemoveByIDRanges[j])
+
+//@ func (*Transaction).RemoveRuleByID props C17,C07
+//@   ensures tx.ruleRemoveByID != nil && has(tx.ruleRemoveByID, id)
+//@   ensures othersKept: forall k int :: k != id ==> has(tx.ruleRemoveByID, k) == old(has(tx.ruleRemoveByID, k))
